@@ -12,7 +12,7 @@
    (mutation suites), not proved: see props/C30.json planned_not_proved. *)
 From Coq Require Import List NArith String.
 Import ListNotations.
-From Verif Require Import Common.Base Model.Walkers Proofs.Walkers.
+From Verif Require Import Common.Base Model.Walkers Proofs.Walkers Proofs.WalkersBytes.
 Open Scope string_scope.
 
 (* sdp.go trackDetailsFromSDP: a=ssrc / a=ssrc-group (FID, FEC-FR) / a=msid
@@ -77,6 +77,35 @@ Theorem c30_handle_undeclared_ssrc_no_panic :
 Proof. exact handle_undeclared_ssrc_no_panic. Qed.
 Print Assumptions c30_handle_undeclared_ssrc_no_panic.
 
+(* peerconnection.go handleIncomingSSRC: the length guard and b[1] on the
+   peeked packet; i bytes were peeked into the buffer b *)
+Theorem c30_incoming_guard_no_panic :
+  forall (b : list N) (i : nat), i <= List.length b -> incoming_guard b i <> Panic.
+Proof. exact incoming_guard_no_panic. Qed.
+Print Assumptions c30_incoming_guard_no_panic.
+
+(* rtpreceiver.go maybeStartRepairStreamReader: the RTX rewrite on the pool
+   buffer, every index and slice expression with Go's uint16 wrap-around.
+   Full statement (forall b i, no panic) is false for a reader that reports
+   i = 0 or a receive MTU below 76 bytes; both are outside what a remote peer
+   controls (pion/srtp hands over at least a 12-byte header; the MTU is local
+   configuration), so they are premises, and the refutation below shows the
+   first one is needed. *)
+Theorem c30_rtx_unwrap_no_panic_partial :
+  forall (b : list N) (i : nat) (pt : N) (ssrc : list N),
+    76 <= List.length b -> 1 <= i -> i <= List.length b -> List.length ssrc = 4 ->
+    rtx_unwrap b i pt ssrc <> Panic.
+Proof. exact rtx_unwrap_no_panic. Qed.
+Print Assumptions c30_rtx_unwrap_no_panic_partial.
+
+Theorem c30_rtx_unwrap_refuted :
+  exists b i pt ssrc, List.length b = 100 /\ List.length ssrc = 4 /\ rtx_unwrap b i pt ssrc = Panic.
+Proof.
+  exists (32%N :: repeat 0%N 99), 0, 96%N, [0; 0; 0; 1]%N.
+  split; [reflexivity |]. split; [reflexivity |]. exact rtx_unwrap_zero_read_panics.
+Qed.
+Print Assumptions c30_rtx_unwrap_refuted.
+
 (* the models are not vacuous: a Chrome-style section with rtx and fec groups
    yields one track with both repair SSRCs, a simulcast section a rid track
    without SSRC (the shape that reached ssrcs[0]) *)
@@ -95,4 +124,11 @@ Example c30_rid_track_has_no_ssrc :
   track_details planb_witness
   = Ok [ {| td_mid := "0"; td_kind := 2; td_stream := "s"; td_id := "t"; td_ssrcs := [];
             td_rtx := None; td_fec := None; td_rids := ["hi"] |} ].
+Proof. vm_compute. reflexivity. Qed.
+
+(* a well-formed RTX packet (12-byte header, OSN 0x1234, payload AA BB) is
+   rewritten to the original packet: pt and ssrc replaced (marker kept), seq := OSN *)
+Example c30_rtx_nontrivial :
+  rtx_unwrap (hex_decode "80e10007000000640000004d1234aabb" ++ repeat 0%N 84) 16 96 [1; 2; 3; 4]%N
+  = Ok (Some (hex_decode "80e012340000006401020304aabb", 97%N, 7%N, [0; 0; 0; 77]%N)).
 Proof. vm_compute. reflexivity. Qed.
